@@ -22,7 +22,8 @@ def _solves(fn):
 # ---- C06 --------------------------------------------------------------------------------------------------------------
 def c06_cases(tier, seed):
     return [(k, n, order) for k in ("inline", "dynamic", "dynamic_bool", "dynamic_instances", "dynamic_list")
-            for n in (1, 2, 3) for order in ("before", "after")]
+            for n in (1, 2, 3) for order in ("before", "after")] + [("dynamic_list_persistent", 1, "selector"),
+                                                                     ("dynamic_list_persistent", 1, "refill")]
 
 
 @contract("api_objects.inline_dynamic", ["C06"],
@@ -65,6 +66,51 @@ def c_inline_dynamic(c, kind, ninst, order):
         if order == "after":
             others = [Item(10 + i) for i in range(ninst - 1)]
         return o, others
+    if kind == "dynamic_list_persistent":
+        @vsc.randobj
+        class Sel(object):
+            def __init__(self):
+                self.sel = vsc.bit_t(4)
+                self.items = vsc.rand_list_t(Item())
+                for i in range(3):
+                    self.items.append(Item(i + 1))
+
+            @vsc.constraint
+            def pick(self):
+                self.items[self.sel].d_k()
+
+            @vsc.dynamic_constraint
+            def pick_dyn(self):
+                self.items[self.sel].d_k()
+        h = Sel()
+        try:
+            if order == "selector":
+                for call, sv in enumerate([0, 2, 1, 2, 0, 1]):
+                    h.sel = sv
+                    # every other element must be free to differ from its k in the same call
+                    with h.randomize_with() as it:
+                        it.items[(sv + 1) % 3].b != it.items[(sv + 1) % 3].k
+                        it.items[(sv + 2) % 3].b != it.items[(sv + 2) % 3].k
+                    got = [(int(x.b), int(x.k)) for x in h.items]
+                    c.check("C06: a dynamic constraint referenced through list[sel] in a class constraint constrains the element "
+                            "selected at the time of the call, call after call", got[sv][0] == got[sv][1]
+                            and got[(sv + 1) % 3][0] != got[(sv + 1) % 3][1] and got[(sv + 2) % 3][0] != got[(sv + 2) % 3][1],
+                            info="call %d sel=%d %r" % (call, sv, got))
+            else:
+                h.sel = 1
+                h.randomize()
+                c.check("C06: reference through list[1] constrains element 1", int(h.items[1].b) == int(h.items[1].k))
+                h.items.clear()
+                for i in range(3):
+                    h.items.append(Item(i + 5))
+                h.randomize()
+                got = [(int(x.b), int(x.k)) for x in h.items]
+                c.check("C06: after the list was refilled the reference constrains the new element 1", got[1][0] == got[1][1] == 6,
+                        info=repr(got))
+        except Exception as e:
+            c.check("C06: a dynamic constraint referenced through list[sel] in a class constraint constrains the element "
+                    "selected at the time of the call, call after call", False, info="%s: %s" % (type(e).__name__, e))
+        return
     o, others = population(3)
     nblocks = len(o.get_model().constraint_model_l)
     if kind == "inline":
@@ -178,7 +224,7 @@ def _rw(o, body):
 # ---- C07 --------------------------------------------------------------------------------------------------------------
 def c07_cases(tier, seed):
     toggles = [list(t) for t in itertools.product((False, True), repeat=3)]
-    return [(place, t) for place in ("top", "nested", "list") for t in toggles]
+    return [(place, t) for place in ("top", "top_newest", "nested", "list", "list_last") for t in toggles]
 
 
 @contract("api_objects.constraint_mode", ["C07"],
@@ -243,6 +289,13 @@ def c_constraint_mode(c, place, toggles):
     if place == "top":
         tgt, sib = Leaf(), Leaf()
         root_t, root_s = tgt, sib
+    elif place == "top_newest":
+        sib, tgt = Leaf(), Leaf()          # the toggled object is the most recently constructed instance of the class
+        root_t, root_s = tgt, sib
+    elif place == "list_last":
+        h = Holder()
+        tgt, sib = h.items[1], h.items[0]
+        root_t = root_s = h
     elif place == "nested":
         o = Outer()
         tgt, sib = o.x, o.y
@@ -268,7 +321,8 @@ def c_constraint_mode(c, place, toggles):
         state = t
         # with cb off, b != 7 must be satisfiable; with cb on it must not be
         ok, e = _solves(lambda: _rw(root_t, (lambda it: it.x.b != 7) if place == "nested" else
-                                    (lambda it: it.items[0].b != 7) if place == "list" else (lambda it: it.b != 7)))
+                                    (lambda it: it.items[0].b != 7) if place == "list" else
+                                    (lambda it: it.items[1].b != 7) if place == "list_last" else (lambda it: it.b != 7)))
         c.check("C07: a block switched off is not enforced on later calls, a block switched on is", ok == (not state),
                 info="toggle=%s solvable(b!=7)=%s" % (t, ok))
         root_t.randomize()
@@ -280,6 +334,13 @@ def c_constraint_mode(c, place, toggles):
         later = Leaf()
         later.randomize()
         c.check("C07: an instance created later starts with every block enabled", enforced(later, True), info=repr(_vals(later, "abd")))
+        lh = Holder()
+        lh.randomize()
+        c.check("C07: ... also instances created later inside a list / another object",
+                all(enforced(x, True) for x in lh.items), info=repr([_vals(x, "abd") for x in lh.items]))
+        lo_ = Outer()
+        lo_.randomize()
+        c.check("C07: ... also instances created later inside another object", enforced(lo_.x, True) and enforced(lo_.y, True))
 
 
 # ---- C08 --------------------------------------------------------------------------------------------------------------
